@@ -73,6 +73,7 @@ type Parser struct {
 	state        int8
 	chunked      bool
 	isClient     bool
+	noBody       bool
 	headerExists bool
 }
 
@@ -309,6 +310,8 @@ UPGRADER:
 					return err
 				}
 				p.statusCode = code
+				// these never carry a body, whatever their framing fields say.
+				p.noBody = code/100 == 1 || code == 204 || code == 304
 				p.nextState(stateStatusBefore)
 				continue
 			}
@@ -475,12 +478,12 @@ UPGRADER:
 		case stateHeaderOverLF:
 			if c == '\n' {
 				p.headerExists = false
-				if p.chunked {
+				if p.chunked && !p.noBody {
 					start = i + 1
 					p.nextState(stateBodyChunkSizeBefore)
 				} else {
 					start = i + 1
-					if p.contentLength > 0 {
+					if p.contentLength > 0 && !p.noBody {
 						p.nextState(stateBodyContentLength)
 					} else {
 						p.handleMessage()
@@ -813,6 +816,7 @@ func (p *Parser) parseTrailer() error {
 func (p *Parser) handleMessage() {
 	p.Processor.OnComplete(p)
 	p.chunked = false
+	p.noBody = false
 	p.header = nil
 	p.trailer = nil
 
